@@ -9,13 +9,17 @@
 use crate::util::*;
 use crate::with_d;
 use easy_ml::matrices::slices::{Slice, Slice2D};
-use easy_ml::matrices::views::MatrixView;
+use easy_ml::matrices::iterators as mi;
+use easy_ml::matrices::views::{
+    DataLayout as MDataLayout, IndexRange as MIndexRange, MatrixMut, MatrixRange, MatrixRef, MatrixReverse, MatrixView,
+    NoInteriorMutability, Reverse,
+};
 use easy_ml::matrices::Matrix;
 use easy_ml::tensors::indexing::{
     TensorAccess, TensorIterator, TensorOwnedIterator, TensorReferenceIterator, TensorReferenceMutIterator,
 };
 use easy_ml::tensors::views::{
-    IndexRange, TensorChain, TensorIndex, TensorMask, TensorMut, TensorRange, TensorRef, TensorRename,
+    DataLayout as TDataLayout, IndexRange, TensorChain, TensorIndex, TensorMask, TensorMut, TensorRange, TensorRef, TensorRename,
     TensorReverse, TensorStack, TensorView,
 };
 use easy_ml::tensors::Tensor;
@@ -593,6 +597,304 @@ fn zlog(kind: &str, form: &str, along: &str, action: &str, shapes: &[Vec<(&'stat
     }
 }
 
+// ---------------------------------------------------------------------------------------------
+// probe sources: leaf containers written in the harness that record every unchecked access and
+// refuse (panic with the monitor's prefix) any that is outside the shape they reported — so an
+// adaptor or iterator that calls an unchecked getter out of contract is seen even when no leaf of
+// the library is reached (e.g. on an empty view, where there is no element to reach)
+// ---------------------------------------------------------------------------------------------
+
+thread_local! {
+    /// (offset or position code, mutable) of every unchecked access made to a probe
+    static PROBE_LOG: std::cell::RefCell<Vec<(usize, bool)>> = const { std::cell::RefCell::new(Vec::new()) };
+}
+
+fn probe_record(offset: usize, mutable: bool) {
+    PROBE_LOG.with(|l| l.borrow_mut().push((offset, mutable)));
+}
+
+pub struct ProbeM {
+    rows: usize,
+    cols: usize,
+    data: Vec<u64>,
+}
+
+impl ProbeM {
+    fn new(rows: usize, cols: usize) -> ProbeM {
+        ProbeM { rows, cols, data: (0..(rows * cols) as u64).collect() }
+    }
+}
+
+// Safety: the probe has no interior mutability (its log lives outside it) and answers every
+// in-shape index; an out-of-shape unchecked access panics instead of being undefined.
+unsafe impl NoInteriorMutability for ProbeM {}
+unsafe impl MatrixRef<u64> for ProbeM {
+    fn try_get_reference(&self, row: usize, column: usize) -> Option<&u64> {
+        if row < self.rows && column < self.cols { self.data.get(row * self.cols + column) } else { None }
+    }
+    fn view_rows(&self) -> usize {
+        self.rows
+    }
+    fn view_columns(&self) -> usize {
+        self.cols
+    }
+    unsafe fn get_reference_unchecked(&self, row: usize, column: usize) -> &u64 {
+        if !(row < self.rows && column < self.cols) {
+            panic!("VERIF-HOOK probe: unchecked access ({}, {}) outside the reported size {}x{}", row, column, self.rows, self.cols);
+        }
+        probe_record(row * self.cols + column, false);
+        &self.data[row * self.cols + column]
+    }
+    fn data_layout(&self) -> MDataLayout {
+        MDataLayout::RowMajor
+    }
+}
+unsafe impl MatrixMut<u64> for ProbeM {
+    fn try_get_reference_mut(&mut self, row: usize, column: usize) -> Option<&mut u64> {
+        if row < self.rows && column < self.cols { self.data.get_mut(row * self.cols + column) } else { None }
+    }
+    unsafe fn get_reference_unchecked_mut(&mut self, row: usize, column: usize) -> &mut u64 {
+        if !(row < self.rows && column < self.cols) {
+            panic!("VERIF-HOOK probe: unchecked mutable access ({}, {}) outside the reported size {}x{}", row, column, self.rows, self.cols);
+        }
+        probe_record(row * self.cols + column, true);
+        &mut self.data[row * self.cols + column]
+    }
+}
+
+pub struct ProbeT<const D: usize> {
+    shape: [(&'static str, usize); D],
+    data: Vec<u64>,
+}
+
+impl<const D: usize> ProbeT<D> {
+    fn new(shape: [(&'static str, usize); D]) -> ProbeT<D> {
+        let n: usize = shape.iter().map(|d| d.1).product();
+        ProbeT { shape, data: (0..n as u64).collect() }
+    }
+    fn offset(&self, indexes: &[usize; D]) -> Option<usize> {
+        let mut o = 0;
+        for d in 0..D {
+            if indexes[d] >= self.shape[d].1 {
+                return None;
+            }
+            o = o * self.shape[d].1 + indexes[d];
+        }
+        Some(o)
+    }
+}
+
+unsafe impl<const D: usize> TensorRef<u64, D> for ProbeT<D> {
+    fn get_reference(&self, indexes: [usize; D]) -> Option<&u64> {
+        self.offset(&indexes).and_then(|o| self.data.get(o))
+    }
+    fn view_shape(&self) -> [(&'static str, usize); D] {
+        self.shape
+    }
+    unsafe fn get_reference_unchecked(&self, indexes: [usize; D]) -> &u64 {
+        match self.offset(&indexes) {
+            Some(o) => {
+                probe_record(o, false);
+                &self.data[o]
+            }
+            None => panic!("VERIF-HOOK probe: unchecked access {:?} outside the reported shape {:?}", indexes, self.shape),
+        }
+    }
+    fn data_layout(&self) -> TDataLayout<D> {
+        TDataLayout::Linear(std::array::from_fn(|d| self.shape[d].0))
+    }
+}
+unsafe impl<const D: usize> TensorMut<u64, D> for ProbeT<D> {
+    fn get_reference_mut(&mut self, indexes: [usize; D]) -> Option<&mut u64> {
+        match self.offset(&indexes) {
+            Some(o) => self.data.get_mut(o),
+            None => None,
+        }
+    }
+    unsafe fn get_reference_unchecked_mut(&mut self, indexes: [usize; D]) -> &mut u64 {
+        match self.offset(&indexes) {
+            Some(o) => {
+                probe_record(o, true);
+                &mut self.data[o]
+            }
+            None => panic!("VERIF-HOOK probe: unchecked mutable access {:?} outside the reported shape {:?}", indexes, self.shape),
+        }
+    }
+}
+
+/// runs `f`, answers in the format of `logged` from the probe's own log
+fn probe_logged(len: usize, expect_mut: bool, f: impl FnOnce()) -> String {
+    PROBE_LOG.with(|l| l.borrow_mut().clear());
+    let r = catch(f);
+    let log: Vec<(usize, bool)> = PROBE_LOG.with(|l| std::mem::take(&mut *l.borrow_mut()));
+    if let Err(k) = r {
+        return match k {
+            PanicKind::Hook => "panic(hook)".to_string(),
+            k => format!("panic ## kind={}", k.as_str()),
+        };
+    }
+    let m = if log.is_empty() {
+        if expect_mut { "mut" } else { "imm" }
+    } else if log.iter().all(|a| a.1) {
+        "mut"
+    } else if log.iter().all(|a| !a.1) {
+        "imm"
+    } else {
+        "MIXED"
+    };
+    let offs: Vec<String> = log.iter().map(|a| a.0.to_string()).collect();
+    format!(
+        "accesses={} {} ## probe {} len={} offs={}",
+        log.len(),
+        if log.iter().all(|a| a.0 < len) { "inbounds" } else { "OUT-OF-BOUNDS" },
+        m,
+        len,
+        if offs.is_empty() { "-".to_string() } else { offs.join(",") }
+    )
+}
+
+/// every iterator constructor of src/matrices/iterators.rs over any source
+fn matrix_ctor<S: MatrixMut<u64> + NoInteriorMutability>(mut v: S, order: &str, flavour: &str, via: &str, len: usize) -> String {
+    let limit = len + 2;
+    let expect_mut = matches!(flavour, "mut" | "owned" | "owned_numeric");
+    let (what, arg) = match order.split_once(':') {
+        Some((w, a)) => (w, a.parse::<usize>().expect("line index")),
+        None => (order, 0),
+    };
+    macro_rules! run {
+        ($make:expr) => {
+            probe_logged(len, expect_mut, || match via {
+                "with_index" => $make.with_index().take(limit).for_each(drop),
+                "from_with_index" => mi::WithIndex::from($make).take(limit).for_each(drop),
+                _ => $make.take(limit).for_each(drop),
+            })
+        };
+    }
+    macro_rules! line {
+        ($make:expr) => {{
+            // the constructor asserts that the row / column exists
+            if catch(|| { let _ = $make; }).is_err() {
+                return "rejected".into();
+            }
+            probe_logged(len, expect_mut, || $make.take(limit).for_each(drop))
+        }};
+    }
+    match (what, flavour) {
+        ("row_major", "copy") => run!(mi::RowMajorIterator::from(&v)),
+        ("row_major", "ref") => run!(mi::RowMajorReferenceIterator::from(&v)),
+        ("row_major", "mut") => run!(mi::RowMajorReferenceMutIterator::from(&mut v)),
+        ("row_major", "owned") => run!(mi::RowMajorOwnedIterator::from(v)),
+        ("row_major", "owned_numeric") => run!(mi::RowMajorOwnedIterator::from_numeric(v)),
+        ("column_major", "copy") => run!(mi::ColumnMajorIterator::from(&v)),
+        ("column_major", "ref") => run!(mi::ColumnMajorReferenceIterator::from(&v)),
+        ("column_major", "mut") => run!(mi::ColumnMajorReferenceMutIterator::from(&mut v)),
+        ("column_major", "owned") => run!(mi::ColumnMajorOwnedIterator::from(v)),
+        ("column_major", "owned_numeric") => run!(mi::ColumnMajorOwnedIterator::from_numeric(v)),
+        ("row", "copy") => line!(mi::RowIterator::from(&v, arg)),
+        ("row", "ref") => line!(mi::RowReferenceIterator::from(&v, arg)),
+        ("row", "mut") => line!(mi::RowReferenceMutIterator::from(&mut v, arg)),
+        ("column", "copy") => line!(mi::ColumnIterator::from(&v, arg)),
+        ("column", "ref") => line!(mi::ColumnReferenceIterator::from(&v, arg)),
+        ("column", "mut") => line!(mi::ColumnReferenceMutIterator::from(&mut v, arg)),
+        ("diagonal", "copy") => line!(mi::DiagonalIterator::from(&v)),
+        ("diagonal", "ref") => line!(mi::DiagonalReferenceIterator::from(&v)),
+        ("diagonal", "mut") => line!(mi::DiagonalReferenceMutIterator::from(&mut v)),
+        _ => "bad-flavour".into(),
+    }
+}
+
+/// `@ piter <rows> <cols> <adaptor|-> <order> <flavour> via=…`: probe matrix (sizes with zeros allowed)
+fn piter(rows: usize, cols: usize, adaptor: &str, order: &str, flavour: &str, via: &str) -> String {
+    let probe = ProbeM::new(rows, cols);
+    let len = rows * cols;
+    match adaptor.split_once(':') {
+        None => matrix_ctor(probe, order, flavour, via, len),
+        Some(("range", spec)) => {
+            let p: Vec<usize> = spec.split('.').map(|x| x.parse().expect("range")).collect();
+            matrix_ctor(MatrixRange::from(probe, MIndexRange::new(p[0], p[1]), MIndexRange::new(p[2], p[3])), order, flavour, via, len)
+        }
+        Some(("reverse", spec)) => matrix_ctor(
+            MatrixReverse::from(probe, Reverse { rows: spec.contains('r'), columns: spec.contains('c') }),
+            order, flavour, via, len,
+        ),
+        _ => "bad-adaptor".into(),
+    }
+}
+
+/// every iterator constructor of src/tensors/indexing.rs over any source
+fn tensor_ctor<S: TensorMut<u64, D>, const D: usize>(mut v: S, flavour: &str, via: &str, len: usize) -> String {
+    let limit = len + 2;
+    let expect_mut = matches!(flavour, "mut" | "owned" | "owned_numeric");
+    macro_rules! run {
+        ($make:expr) => {
+            probe_logged(len, expect_mut, || match via {
+                "with_index" => $make.with_index().take(limit).for_each(drop),
+                "from_with_index" => easy_ml::tensors::indexing::WithIndex::from($make).take(limit).for_each(drop),
+                _ => $make.take(limit).for_each(drop),
+            })
+        };
+    }
+    match flavour {
+        "copy" => run!(TensorIterator::from(&v)),
+        "ref" => run!(TensorReferenceIterator::from(&v)),
+        "mut" => run!(TensorReferenceMutIterator::from(&mut v)),
+        "owned" => run!(TensorOwnedIterator::from(v)),
+        "owned_numeric" => run!(TensorOwnedIterator::from_numeric(v)),
+        _ => "bad-flavour".into(),
+    }
+}
+
+/// `@ pten <shape> <adaptor|-> <flavour> via=…`: probe tensor, optionally behind one adaptor
+fn pten(shape: &[(&'static str, usize)], adaptor: &str, flavour: &str, via: &str) -> String {
+    with_d!(shape.len(), D => {
+        let probe = ProbeT::<D>::new(shape_array(shape));
+        let len = probe.data.len();
+        match adaptor.split_once(':') {
+            None => tensor_ctor(probe, flavour, via, len),
+            Some((kind, spec)) if kind == "range" || kind == "mask" => {
+                let parts: Vec<&str> = spec.split('.').collect();
+                let name = intern(parts[0]);
+                let (start, l): (usize, usize) = (parts[1].parse().unwrap(), parts[2].parse().unwrap());
+                let mut all: [Option<IndexRange>; D] = std::array::from_fn(|_| None);
+                match shape.iter().position(|d| d.0 == name) {
+                    Some(d) => all[d] = Some(IndexRange::new(start, l)),
+                    None => return "rejected".into(),
+                }
+                if kind == "range" {
+                    match catch(|| TensorRange::from_all(probe, all).ok()) {
+                        Ok(Some(v)) => tensor_ctor(v, flavour, via, len),
+                        Ok(None) => "rejected".into(),
+                        Err(k) => panic_str(k),
+                    }
+                } else {
+                    match catch(|| TensorMask::from_all(probe, all).ok()) {
+                        Ok(Some(v)) => tensor_ctor(v, flavour, via, len),
+                        Ok(None) => "rejected".into(),
+                        Err(k) => panic_str(k),
+                    }
+                }
+            }
+            Some(("reverse", spec)) => match catch(|| TensorReverse::from(probe, &[intern(spec)])) {
+                Ok(v) => tensor_ctor(v, flavour, via, len),
+                Err(PanicKind::Explicit) => "rejected".into(),
+                Err(k) => panic_str(k),
+            },
+            Some(("access", spec)) => {
+                let names = parse_names(spec);
+                if names.len() != D {
+                    return "rejected".into();
+                }
+                match catch(|| TensorAccess::try_from(probe, names_array::<D>(&names)).ok()) {
+                    Ok(Some(v)) => tensor_ctor(v, flavour, via, len),
+                    Ok(None) => "rejected".into(),
+                    Err(k) => panic_str(k),
+                }
+            }
+            _ => "bad-adaptor".into(),
+        }
+    })
+}
+
 fn log_matrix(rows: usize, cols: usize, order: &str, flavour: &str) -> String {
     let m = match catch(|| Matrix::from_flat_row_major((rows, cols), (0..(rows * cols) as u64).collect())) {
         Ok(m) => m,
@@ -1091,6 +1393,14 @@ impl Runner {
         match toks[0] {
             "mlog" => {
                 return log_matrix(toks[1].parse().unwrap(), toks[2].parse().unwrap(), toks[3], toks[4]);
+            }
+            "piter" => {
+                let via = opt_arg("via", toks).unwrap_or("plain");
+                return piter(toks[1].parse().unwrap(), toks[2].parse().unwrap(), toks[3], toks[4], toks[5], via);
+            }
+            "pten" => {
+                let via = opt_arg("via", toks).unwrap_or("plain");
+                return pten(&parse_shape(toks[1]), toks[2], toks[3], via);
             }
             "zlog" => {
                 let shapes: Vec<Vec<(&'static str, usize)>> = toks[5].split(';').map(parse_shape).collect();
@@ -1890,6 +2200,75 @@ pub fn gen(g: &mut Gen) {
             turn += 1;
             g.count("zlog.adversarial-names.valid");
             g.op(format!("@ zlog chain {} {} {} {}", if turn % 2 == 0 { "tuple" } else { "array" }, names[0], action, shapes.join(";")));
+        }
+    }
+    // M. every iterator constructor over a probe source (a leaf written in the harness that refuses
+    // out-of-shape unchecked accesses): empty views in every combination, 1xN / Nx1, small ones;
+    // bare and behind MatrixRange / MatrixReverse; tensors bare and behind one adaptor
+    {
+        let sizes: Vec<(usize, usize)> = vec![(0, 0), (0, 1), (0, 3), (1, 0), (2, 0), (3, 0), (1, 1), (1, 3), (3, 1), (2, 2), (2, 3)];
+        let vias = ["plain", "with_index", "from_with_index"];
+        let mut turn = 0usize;
+        for &(r, c) in &sizes {
+            for order in ["row_major", "column_major"] {
+                for f in ["copy", "ref", "mut", "owned", "owned_numeric"] {
+                    for via in vias {
+                        if !thorough && via != "plain" && (turn + r + c) % 3 != 0 {
+                            turn += 1;
+                            continue;
+                        }
+                        turn += 1;
+                        g.count(&format!("piter.{}.{}.{}", order, f, via));
+                        g.op(format!("@ piter {} {} - {} {} via={}", r, c, order, f, via));
+                    }
+                }
+            }
+            for f in ["copy", "ref", "mut"] {
+                for i in 0..=r.min(2) {
+                    g.count("piter.row");
+                    g.op(format!("@ piter {} {} - row:{} {}", r, c, i, f));
+                }
+                for j in 0..=c.min(2) {
+                    g.count("piter.column");
+                    g.op(format!("@ piter {} {} - column:{} {}", r, c, j, f));
+                }
+                g.count("piter.diagonal");
+                g.op(format!("@ piter {} {} - diagonal {}", r, c, f));
+            }
+        }
+        // views that are empty in one direction only, cut out of a non-empty source
+        for (r, c, ad) in [(2usize, 3usize, "range:0.2.3.2"), (2, 3, "range:2.2.0.3"), (2, 3, "range:0.2.1.2"), (3, 2, "range:1.5.0.0"),
+            (2, 3, "range:5.1.7.1"), (2, 3, "reverse:r"), (2, 3, "reverse:rc"), (3, 1, "reverse:c"), (1, 4, "range:0.1.1.2")] {
+            for order in ["row_major", "column_major", "diagonal", "row:0", "column:0", "row:1", "column:1"] {
+                let flavours: &[&str] = if order.contains("major") { &["copy", "ref", "mut", "owned", "owned_numeric"] } else { &["copy", "ref", "mut"] };
+                for f in flavours {
+                    g.count("piter.adaptor");
+                    g.op(format!("@ piter {} {} {} {} {}", r, c, ad, order, f));
+                }
+            }
+        }
+        // tensors: a length-1 dimension in every position, every constructor, one adaptor in front
+        for shape in ["a:1", "a:3", "a:1,b:3", "a:3,b:1", "a:2,b:2", "a:1,b:1,c:1", "a:2,b:1,c:3", "a:1,b:2,c:2", "a:2,b:3,c:1", "-"] {
+            for f in ["copy", "ref", "mut", "owned", "owned_numeric"] {
+                for via in vias {
+                    g.count(&format!("pten.{}.{}", f, via));
+                    g.op(format!("@ pten {} - {} via={}", shape, f, via));
+                }
+            }
+            if shape != "-" {
+                let first = &shape[..1];
+                let last_name = shape.rsplit(',').next().unwrap().split(':').next().unwrap();
+                let names: Vec<&str> = shape.split(',').map(|d| d.split(':').next().unwrap()).collect();
+                let mut rev = names.clone();
+                rev.reverse();
+                for ad in [format!("range:{}.0.1", first), format!("range:{}.1.2", last_name), format!("mask:{}.0.1", last_name),
+                    format!("reverse:{}", last_name), format!("access:{}", rev.join(",")), "range:zz.0.1".to_string()] {
+                    for f in ["copy", "mut", "owned_numeric"] {
+                        g.count("pten.adaptor");
+                        g.op(format!("@ pten {} {} {}", shape, ad, f));
+                    }
+                }
+            }
         }
     }
     // G. matrices resized with invalid arguments, then walked (the survivor is used unguarded)
